@@ -82,13 +82,14 @@ func layoutBoxBackgrounds(page *bo.PageBox, box_ Box, getImageFromUri bo.ImageFe
 
 	var (
 		color     parser.RGBA // transparent
-		images_   []images.Image
 		anyImages = false
 	)
+	// the layers (with no image) are kept for an hidden box:
+	// the painting area of the last one is needed for pages
+	bs := style.GetBackgroundImage()
+	images_ := make([]images.Image, len(bs))
 	if style.GetVisibility() != "hidden" {
 		orientation := style.GetImageOrientation()
-		bs := style.GetBackgroundImage()
-		images_ = make([]images.Image, len(bs))
 		for i, v := range bs {
 			images_[i] = resolveImage(v, orientation, getImageFromUri)
 			if images_[i] != nil {
